@@ -84,7 +84,11 @@ def diff_states(ex, a, b, lv):
         if k not in a.cheap or not a.cheap[k].eq(arr):
             lv.cheap.add(k)
     for k, v in b.ghost.items():
-        if k not in a.ghost or not _same_val(a.ghost[k], v):
+        if k in a.ghost and a.ghost[k] is v:
+            continue
+        if not isinstance(v, V) and not hasattr(v, "eq"):
+            raise Unsupported("structured ghost value %s modified inside a loop" % k)
+        if k not in a.ghost or not (_same_val(a.ghost[k], v) if isinstance(v, V) else a.ghost[k].eq(v)):
             lv.ghost.add(k)
 
 
